@@ -24,24 +24,24 @@ P = {
  "C04": ("static analysis: Result typestate (Err()==nil dominance), error-identity taint rule, final-error predicate agreement",
          "Decided: after each converter execution the result's error is checked and returned unchanged before anything else runs; error values on the chain are only returned/stored/boxed, never wrapped; the target executes only on the nil branch; the final-error predicate is type identity at the last position everywhere and Result.Err reports the final output as the error under exactly the reviewed conditions (a typed-nil error is still an error); no per-call cache of converter results.", "Trusted: reflect.Value.Call, go/ssa.", "§4 ERRFLOW/ERRPRED/EXEC-X7, §5 C04"),
  "C05": ("static analysis: five necessary structural conditions (chaining edge class, pruning guard, path search pairing, argument-map plumbing, in-progress-set stack discipline)",
-         "Necessary structural conditions of chaining only (chaining and implements edge classes present and unrestricted, every converter registered, a function vertex hangs off the root only when it has no inputs, pruning guard, path search pairing on a per-parameter private copy, argument-map plumbing, in-progress-set stack discipline); completeness of chaining and outcome stability over map order are NOT decided (no sound static argument in reach bounds reachability in a runtime-built graph or randomized iteration).", "Each clause is a genuine necessary condition: breaking it breaks chaining for some well-behaved converter set.", "§5 C05"),
+         "Necessary structural conditions of chaining only (chaining and implements edge classes present and unrestricted, every converter registered, a function vertex hangs off the root only when it has no inputs, pruning guard, path search pairing on a per-parameter private copy, argument-map plumbing, in-progress-set stack discipline); completeness of chaining and outcome stability over map order are NOT decided (no sound static argument in reach bounds reachability in a runtime-built graph or randomized iteration). The path search settles each vertex once and a memoized converter result is never modified in place (HEAP-H3/H6, ALIAS).", "Each clause is a genuine necessary condition: breaking it breaks chaining for some well-behaved converter set.", "§5 C05"),
  "C06": ("static analysis: reachable-panic audit, compiler-unproven bounds checks justified by guards/loop bounds/reviewed length invariants, reflect.Value validity typestate, positional packing agreement, StructOf name uniqueness, termination witnesses",
          "Decided: every explicit panic reachable from Call/Convert/Redefine is discharged mechanically or by a reviewed invariant table; reflect.Value methods on API inputs are dominated by IsValid; nil options are rejected; slices indexed by struct-field ordinal are sized by the value list; dynamic struct field names are unique; every recursive SCC carries a visited/in-progress witness and every loop is regular or in the reviewed table; Dijkstra's predecessor map is only written together with a lowered distance on unsettled vertices (acyclic walk); vertex values are assigned only under validity/assignability guards; Remove leaves no dangling edge; every index or slice expression the Go compiler cannot prove in range is bounded by a dominating guard, a loop bound, its construction or a reviewed length invariant of where the slice comes from (BOUNDS); every *Func entering a converter list is non-nil (NILOPT-F); the planner's zero stand-in renders results with the pointer-depth-aware packer (EXEC-X3). Not decided: panics raised inside reflect for other reasons, exhaustion by sheer size.",
          "Trusted: reflect, hclog; reviewed invariant tables are listed in the checker source with one reason each.", "§4 PANIC/BOUNDS/REFLVALID/NILOPT/NILOPT-F/PACK/STRUCTOF/TERM, §5 C06"),
  "C07": ("static analysis: weight-order and discount-loop rules over the extracted edge table",
          "Decided clauses: the matching-name discount is negative and strictly below every other in-edge weight, applied only to in-edges of same-named value vertices, on a private copy of the graph, and the named requirement edge is cheaper than the typed route; converter results are not cached across positions of one call; requirements that already carry a value are bound when classified (not re-read after sibling paths ran); a named requirement is used directly only when it is a supplied value hanging off the root (a walk by-product is re-resolved under the parameter's own name). Not decided: optimality of Dijkstra under a negative edge, tie-breaking.", "Trusted: go/ssa constant folding.", "§4 PRIO-W/D/P/N, BIND, §5 C07"),
  "C08": ("static analysis: must-pass-edge gating of redefine root edges, input-set provenance, exclusion key-space agreement, output-filter error flow",
-         "Decided clauses: the redefine-only root edge is gated by the input filter; only path inputs are recorded in the input set; struct fields are appended only for entries not supplied; rejected outputs return an error before planning and no successful return of Redefine bypasses that validation; the generated function forwards options and declared inputs to Call. Not decided: that the planning run visits exactly the inputs a real call would use; result equality.", "Known finding D12 (typed supplied inputs use a different hash namespace).", "§4 REDEF, §5 C08"),
+         "Decided clauses: the redefine-only root edge is gated by the input filter; only path inputs are recorded in the input set; struct fields are appended only for entries not supplied; rejected outputs return an error before planning and no successful return of Redefine bypasses that validation; the generated function forwards options and declared inputs to Call. The output filter is shown every output (no early exit), and the generated function's error path returns zeros with the error written last. Not decided: that the planning run visits exactly the inputs a real call would use; result equality.", "Known finding D12 (typed supplied inputs use a different hash namespace).", "§4 REDEF, §5 C08"),
  "C09": ("static analysis: who-may-call audit of reflect.Value.Call, must-pass zeroing loop before the planning resolver call, whole-program shared-write audit",
          "Decided for all interleavings: user functions execute only in the executor; in the planning function every func vertex is replaced by a fresh copy with a zero-producing body before the resolver runs; that body calls no user code; nothing reachable from the original functions is written.", "Trusted: reflect.MakeFunc, go/ssa.", "§4 EXEC/SHARED/ALIAS, §5 C09"),
  "C10": ("static analysis: structural identity of Convert with Call on a synthesized identity function",
-         "Decided: Convert's only in-package callee builds func(T) T whose body returns its parameter, calls Call with its own options unmodified, checks Err() before reading outputs, returns (nil, err) on error. Convert has no resolution logic of its own.", "Trusted: reflect.FuncOf/MakeFunc.", "§4 CONVERT, §5 C10"),
+         "Decided: Convert's only in-package callee builds func(T) T whose body returns its parameter, calls Call with its own options unmodified, checks Err() before reading outputs, returns (nil, err) on error. Convert has no resolution logic of its own. The requested target list is not edited before the identity function is built.", "Trusted: reflect.FuncOf/MakeFunc.", "§4 CONVERT, §5 C10"),
  "C11": ("static analysis: dominance rules around the memoized call, alias rule on Result.out, shared-write audit",
          "Sequential clause decided structurally (the call is dominated by not(once and cached); under once the store post-dominates the call; the cache is never modified; the memo is read by the executor only and Call never returns it ahead of resolution; the wrapped function is invoked at a single site; a Func is never copied by value outside the planner's stand-in step, so the memo cannot fork). The concurrent clause is decided negatively: the cache is an unsynchronised shared write (known finding D9).", "Known finding D9.", "§4 ONCE/ALIAS/SHARED, §5 C11"),
  "C12": ("static analysis: exhaustive store audit over both packages with ownership classes",
          "Decided for all interleavings at once: every store/map update/delete in both packages is classified by owner; writes to shared owners (Func, ValueSet, captured variables of option closures, globals) occur only on objects fresh in the writing function (or in the private helper of the constructing function); no field of a shared object is handed by address to external code (pools, atomics); package variables are only read after init. Outcome-equivalence with a sequential run follows only because all post-construction state is per-call.", "Known finding D9 (Func.onceResult). Trusted: hclog and reflect are thread-safe.", "§4 SHARED/IMMUT, §5 C12"),
  "C13": ("static analysis: dataflow from requirement/input/converter lists into the error literal and its rendering",
-         "Decided: missing arguments are exactly the requirement vertices no longer in the pruned graph; the input list converts every input vertex; the error literal stores Func, Args, Inputs and Converters (the slice that received every supplied and generated converter); Error() renders every missing argument into the returned message (interprocedural may-flow); Call cannot return a stale success ahead of resolution. Not decided: 'genuinely underivable' beyond 'pruned from the graph'.", "Trusted: go/ssa.", "§4 UNSAT, §5 C13"),
+         "Decided: missing arguments are exactly the requirement vertices no longer in the pruned graph; the input list converts every input vertex; the error literal stores Func, Args, Inputs and Converters (the slice that received every supplied and generated converter); Error() renders every missing argument into the returned message (interprocedural may-flow); Call cannot return a stale success ahead of resolution. Each vertex kind's Value carries that vertex's own labels; an invalid option value skips only itself. Not decided: 'genuinely underivable' beyond 'pruned from the graph'.", "Trusted: go/ssa.", "§4 UNSAT, §5 C13"),
  "C14": ("static analysis: lower-casing dataflow, final-error predicate, validity typestate, tag writer/reader agreement, rejection error paths",
          "Decided clauses: names are always lower-cased; final error excluded by type identity at the last position; non-function/nil values rejected with an error; tag namespace and option keys agree between writers and the reader; documented rejections return errors; the input set is built over exactly NumIn() positions and the output set over NumOut() less only the final error. Not decided: declaration order, tag parsing details, unexported-field skipping.", "Trusted: reflect.", "§4 LOWER/ERRPRED/REFLVALID/TAGS, §5 C14"),
  "C15": ("static analysis: positional packing agreement across the five packing sites, tag agreement, adapter error plumbing",
@@ -49,11 +49,11 @@ P = {
  "C16": ("static analysis: lower-casing dataflow, option-order recogniser, nil-option and nil-value guards",
          "Decided: keys of the builder's named maps are ToLower results; defaults precede call options in the slice handed to the applier which iterates in increasing order; nil options return an error; nil values are ignored; accumulation is plain map assignment; an invalid (nil) value in a multi-value option skips only itself; Call returns the executor's Result only behind the nil-error branch of option merging (no shortcut skips the rejection of a nil option). Not decided: permutation invariance beyond map semantics and C03.", "Trusted: Go map semantics.", "§4 LOWER/OPTORDER/NILOPT/ERRFLOW-E3/E6, §5 C16"),
  "C17": ("static analysis: final-error predicate agreement, Result literal discipline, Len/Out arithmetic",
-         "Decided: every comparison against the error type is type identity at index len-1; every Result construction sets exactly one of out/buildErr; Len = len(out) minus one iff hasError; Out(i) indexes out with i; Err reports the final output under exactly the reviewed conditions; Call returns the executor's Result unmodified; a memoised Result is exactly the Result of the function's own first execution and cannot be written through the planner's copy.", "Trusted: reflect.", "§4 ERRPRED/RESULTLIT/LEN, §5 C17"),
+         "Decided: every comparison against the error type is type identity at index len-1; every Result construction sets exactly one of out/buildErr; Len = len(out) minus one iff hasError; Out(i) indexes out with i; Err reports the final output under exactly the reviewed conditions; Call returns the executor's Result unmodified; a memoised Result is exactly the Result of the function's own first execution and cannot be written through the planner's copy. No error of option building, generation or resolution is dropped on the way to the executor; a Result that was handed out is never modified in place.", "Trusted: reflect.", "§4 ERRPRED/RESULTLIT/LEN, §5 C17"),
  "C18": ("static analysis: heap-position bookkeeping and relaxation pairing rules on Dijkstra",
-         "Decided clauses: Swap maintains index==position; every distance store is followed by a heap repair before the next pop and paired with the predecessor store; the stored distance is u.distance+weight guarded by a strict/non-strict less and by 'not visited'; source initialised to 0 before heap.Init; results read from the items; path reconstruction follows the predecessor map; queue items are allocated per search and a predecessor is written only together with a strictly lowered distance; read-only graph functions mutate nothing. NOT decided: exactness on all graphs.", "Trusted: container/heap.", "§4 HEAP/PURITY, §5 C18"),
+         "Decided clauses: Swap maintains index==position; every distance store is followed by a heap repair before the next pop and paired with the predecessor store; the stored distance is u.distance+weight guarded by a strict/non-strict less and by 'not visited'; source initialised to 0 before heap.Init; results read from the items; path reconstruction follows the predecessor map; queue items are allocated per search and a predecessor is written only together with a strictly lowered distance; read-only graph functions mutate nothing. NOT decided: exactness on all graphs. Removal keeps the adjacency the search reads consistent; a relaxation carries no condition beyond the visited and improvement tests.", "Trusted: container/heap.", "§4 HEAP/PURITY, §5 C18"),
  "C19": ("static analysis: paired-update (mirror) rules, copy freshness, purity of read-only methods, hash-key discipline",
-         "Decided: every inner-map update/delete on adjacencyOut[a][b] has its twin on adjacencyIn[b][a] with the same weight in the same function; Remove deletes mirrored entries of every neighbour and the hash entry; Add keeps/AddOverwrite replaces the hash entry and neither touches edges; Copy stores only fresh inner maps; Reverse swaps the two fields and shares hash; read-only methods perform no update. Agreement with an adjacency model on all histories then follows from Go's map semantics (trusted).", "Trusted: Go map semantics.", "§4 MIRROR/COPY/PURITY, §5 C19"),
+         "Decided: every inner-map update/delete on adjacencyOut[a][b] has its twin on adjacencyIn[b][a] with the same weight in the same function; Remove deletes mirrored entries of every neighbour and the hash entry; Add keeps/AddOverwrite replaces the hash entry and neither touches edges; Copy stores only fresh inner maps; Reverse swaps the two fields and shares hash; read-only methods perform no update. Agreement with an adjacency model on all histories then follows from Go's map semantics (trusted). No table of a copy is a map taken over from another graph.", "Trusted: Go map semantics.", "§4 MIRROR/COPY/PURITY, §5 C19"),
  "C20": ("static analysis: visited-set discipline of DFS, copy-only mutation and leftover-edge scan of Kahn, bookkeeping obligations of Tarjan's SCC routine and of the DAG relaxation, heap discipline of the Dijkstra it is compared with",
          "Decided clauses: visited[v] is stored before successors are iterated, the callback runs only for undiscovered successors, descent only through the next closure; KahnSort mutates only its copy and its normal return is dominated by the leftover-edge scan whose positive branch panics; Tarjan: index/low-link bookkeeping, stack-membership test for visited successors, root test, pop-until-self, driver over all unvisited vertices; TopoShortestPath: candidate = dist[u]+w over out-edges in the given order, update only if absent or better; Dijkstra's repair/visited/predecessor discipline. These are necessary conditions on the shape of the algorithms: the partition as a theorem and agreement of the two shortest-path routines on all DAGs are NOT decided.", "Trusted: Go map semantics, container/heap.", "§4 DFSV/KAHN/TARJAN/TOPO/HEAP, §5 C20"),
 }
